@@ -36,6 +36,8 @@ var c10ElasticSpec = &c10spec{
 			return c10resp{Status: 200, CT: "json", Body: "objidx", Frame: "cl"}
 		case "fail":
 			return c10resp{Fault: "close"}
+		case "slow":
+			return c10resp{Status: 200, CT: "json", Body: "objidx", Frame: "cl", DelayMs: 10500}
 		}
 		return c10resp{Fault: "stall-pre"}
 	},
@@ -107,6 +109,19 @@ func verifC10Elastic(c *drv.Ctx) {
 	c10Bodies["objidx"] = struct{ data, class string }{`{"idx":{"aliases":{}}}`, "object"}
 	var cases []*c10case
 	idx := 0
+	// a slow but healthy node under a long configured timeout (queued first: each takes 10.5 s)
+	for _, which := range []string{"primary", "aliases"} {
+		idx++
+		if c.Mine(idx) {
+			k := &c10case{Scanner: "elastic", Idx: idx, Scheme: "http", Prim: c10resp{Status: 200, CT: "json", Body: "obj0", Frame: "cl"}, Sec: map[string]string{"aliases": "ok"}, Long: true}
+			if which == "primary" {
+				k.Prim.DelayMs = 10500
+			} else {
+				k.Sec["aliases"] = "slow"
+			}
+			cases = append(cases, k)
+		}
+	}
 	for _, scheme := range []string{"http", "https"} {
 		for _, prim := range c10primaries(frames, scheme == "https") {
 			for _, sec := range []string{"ok", "fail", "stall"} {
